@@ -31,6 +31,10 @@ CLAIMED = {
    text='Decides for sertypes.py: per protocol generation, the regular language of field-width sequences each descriptor encoder can emit is included in the language its tag decoder reads (product-automaton inclusion, widths derived from struct formats and packer bodies) plus length framing; tag table consistency; every per-element list written into a shape-like descriptor is an argument of the content id; dedup discipline (early return iff already described, single buffer writer, references by position). One listed known finding (sources not covered by the shape id). That the described shape equals the query shape is not decided.',
    note=NOTE + ' Field identity is abstracted to width and order; which count governs which loop is forgotten.',
    technique='static analysis: abstract interpretation of writer/reader functions into regular expressions over field widths, NFA product inclusion; registry/table extraction; argument-coverage of id functions'),
+ 'C18': dict(
+   text='Decides for the quoting layer: every escape the EdgeQL string/bytes writers can emit is accepted by the Rust unquote functions with the same value (tables extracted from both sides, incl. numeric guards); the code points passed through raw do not meet the lexer-prohibited set (character-class algebra over the regexes and the Rust match arms); each quoting function neutralises its own delimiter, backslash first, and the dollar-quote marker search covers a boundary-straddling occurrence; identifier quoting consults the keyword tables; the code generators\' constant and identifier sinks call the quoting functions. PostgreSQL\'s full lexical rules and hand-rolled quoting inside SQL f-strings are not decided.',
+   note=NOTE + ' Rust side read through a three-function arm extractor (fails closed if an arm group cannot be parsed).',
+   technique='static analysis: writer/reader escape-table extraction and agreement (Python ast + Rust match-arm extractor), interval algebra on character classes, structural delimiter-discipline checks, sink provenance'),
 }
 
 _PENDING = 'check not built yet in this round (design in DESIGN.md §3); will be claimed when its rules are armed'
